@@ -30,7 +30,7 @@ man = {
     "setup_cmd": "./check --setup",
     "hooks": {
         "guard": "cargo feature `verif-hooks` (default off) on huginn-net-tcp/http/tls",
-        "enable": "harness/Cargo.toml enables features=[\"verif-hooks\"] on the path dependencies when hooks exist; currently no hook is needed by a claimed check",
+        "enable": "harness/Cargo.toml enables features=[\"verif-hooks\"] on its path dependencies huginn-net and huginn-net-tcp (cargo build --release --offline in /verif/harness)",
         "baseline_off_cmd": "cd /repo && cargo nextest run --workspace --no-fail-fast --tool-config-file pb:/w/lib/nextest.toml --profile pb --test-threads 8 --offline",
         "source_commits": HOOK_COMMITS,
         "add_only": True,
